@@ -39,7 +39,7 @@ long thread_exits = 0;
 bool mem_error_seen = false;
 
 struct Interval { int type; long fsupc; long krep; }; // type 0 = UPD (values+first copy), 1 = DFS first copy, 2 = DFS second copy
-struct TaskShadow { long panel = -1, w = 0, bcol = -1; const int_t *lbusy = nullptr; std::vector<Interval> iv; bool in_prune = false; long prune_fsupc = -1; };
+struct TaskShadow { long min_zero_col = -1; long panel = -1, w = 0, bcol = -1; const int_t *lbusy = nullptr; std::vector<Interval> iv; bool in_prune = false; long prune_fsupc = -1; };
 std::vector<TaskShadow> ts;
 std::vector<long> stack_marks;
 long elt_size = 8;
@@ -349,8 +349,10 @@ void on_event(int task, int kind, long pnum, long a, long b, long c, const void 
             long lead = Glu->map_in_sup[jcol] < 0 ? jcol + Glu->map_in_sup[jcol] : jcol;
             long end = slot_end[lead];
             if (end >= 0 && prev + num > end) {
+                // with one thread the prediction of pxgstrf_super_bnd_dfs is exact; with several threads it can be too small because descendants of later
+                // columns of the H-supernode are still unfinished (listed finding D13, keyed by the thread count so that a one-thread overrun is reported)
                 if (dynamic_mode && !(shared->pan_status[lead].type == RELAXED_SNODE))
-                    stop("C05", "dyn_slot_overrun", fmt("dynamic mode: column %ld needs lusup[%ld..%ld) but the slot predicted for H-supernode %ld ends at %ld", jcol, prev, prev + num, lead, end));
+                    stop("C05", options && options->nprocs >= 2 ? "dyn_slot_overrun@several_threads" : "dyn_slot_overrun", fmt("dynamic mode: column %ld needs lusup[%ld..%ld) but the slot predicted for H-supernode %ld ends at %ld", jcol, prev, prev + num, lead, end));
                 stop("C05", "lusup_slot_overrun", fmt("column %ld needs lusup[%ld..%ld) but the slot reserved for H-supernode %ld ends at %ld", jcol, prev, prev + num, lead, end));
             }
             if (prev + num > Glu->nzlumax) stop("C05", "lusup_array_overrun", fmt("column %ld needs lusup up to %ld, array holds %ld", jcol, prev + num, (long)Glu->nzlumax));
@@ -388,6 +390,7 @@ void on_event(int task, int kind, long pnum, long a, long b, long c, const void 
     }
     case SLU_EV_PIVOT_ZERO: {
         if (first_zero_col < 0 || a < first_zero_col) first_zero_col = a;
+        if (me.min_zero_col < 0 || a < me.min_zero_col) me.min_zero_col = a;
         probes["zero_pivot_columns"]++;
         col_state[a] = C_PIVOTED;
         break;
@@ -446,6 +449,9 @@ void on_event(int task, int kind, long pnum, long a, long b, long c, const void 
     }
     case SLU_EV_THREAD_EXIT:
         ++thread_exits;
+        // every thread reports the smallest zero-pivot column it met itself (the minimum over threads is the driver's info); a = that value, 1-based, 0 = none
+        if (a >= 0 && a <= N && !mem_error_seen && a != me.min_zero_col + 1)
+            viol("C06", "thread_reports_not_its_first_zero_column", fmt("thread met its first all-zero candidate set at column %ld (0-based) but reports %ld", me.min_zero_col, a));
         if (released_total == N && !extents_checked && !mem_error_seen) {
             // C03 "applied exactly once": an update from supernode s to column jj must use s up to its last column, unless s
             // continues into jj's own panel (then the rest is applied by the panel-internal update) -- judged on the final partition
